@@ -264,10 +264,78 @@ $sends.setdefault($nm, []).append($repl2.map_distributed_send($sn))
             "receive nodes are not keyed by the name assigned to the received array")
 
 
+def r_placement(c):
+    """where stored arrays are computed, and how the verifier resolves part inputs"""
+    m = c.model
+    f = m.func(D + "partition.find_distributed_partition")
+    where = m.loc(m.module_of(f), f)
+    name = "distributed.partition.find_distributed_partition"
+    # (1) a stored array is computed no later than the EARLIEST part with a send
+    #     that depends on it: a minimum over all (send, dependency) pairs
+    acc = find(f, """
+$t = dict.fromkeys($arrs, $top)
+for $sid, $snode in $g.local_send_id_to_send_node.items():
+    for $a in $dep($snode.data):
+        $t[$a] = min($t[$a], $c2p[$sid])
+""")
+    comp = find(f, "$t = {$a: min(($c2p[$sid] for $sid, $snode in "
+                   "$g.local_send_id_to_send_node.items() if $a in $dep($snode.data)), "
+                   "default=$top) for $a in $arrs}")
+    got = acc or comp
+    c.check(len(got) == 1, "R09-PLACEMENT", name, "first-dependent-send-is-a-minimum", where,
+            "the part bound of a stored array is not the minimum, over all sends whose data "
+            "depends on it, of the send's part (starting from the number of parts): with "
+            "'first one visited' an array needed by an early send is computed in a later "
+            "part and the part graph becomes cyclic")
+    if got:
+        e = got[0]
+        c.check(has(f, f"{e['$top']} = len($parts)") and has(
+            f, f"$to = {{$a: min({e['$t']}[$a], {e['$top']} - 1) for $a in {e['$arrs']}}}"),
+                "R09-PLACEMENT", name, "placed-at-that-bound-or-last-part", where,
+                "stored arrays are not placed at min(bound, last part)")
+    # (2) a received array belongs to the part of its receive
+    c.check(has(f, "$r2p = {$r: $c2p[_recv_to_comm_id($rank, $r)] for $r in $recvd}"),
+            "R09-PLACEMENT", name, "received-array-in-the-part-of-its-receive", where,
+            "a received array is not assigned to the part that contains its receive")
+    # (3) the verifier resolves a part input against the outputs of ALL parts, then
+    #     against the receives of ALL parts (data received in an earlier round may be
+    #     read by any later part of the rank)
+    v = m.func(D + "verify.verify_distributed_partition")
+    vw = m.loc(m.module_of(v), v)
+    vname = "distributed.verify.verify_distributed_partition"
+    outs = find(v, """
+for $p in $all.values():
+    for $n in $p.output_names:
+        assert $n not in $tbl
+        $tbl[$n] = $p.pid
+""")
+    recvs = find(v, """
+for $p in $all.values():
+    for $n in $p.name_to_recv_node:
+        assert $n not in $t1
+        assert $n not in $tbl
+        $tbl[$n] = $p.pid
+""")
+    ok = len(outs) == 1 and len(recvs) == 1
+    if ok:
+        ok = has(v, f"""
+$d = {outs[0]['$tbl']}.get($in)
+if $d is None:
+    $d = {recvs[0]['$tbl']}.get($in)
+if $d is None:
+    raise AssertionError($$msg)
+""")
+    c.check(ok, "R09-PLACEMENT", vname, "part-inputs-resolved-against-all-parts", vw,
+            "a part input is not looked up first among the outputs of all parts and then "
+            "among the receives of all parts: a well-formed partition in which a later part "
+            "re-reads data received earlier is rejected (or an undefined input accepted)")
+
+
 SPEC = Spec(
     prop="C09",
-    rules=[r_collectives, r_nocomm, r_tags, r_names],
-    floors={"R09-COLLECTIVES": 8, "R09-NOCOMM": 7, "R09-TAGS": 5, "R09-NAMES": 6},
+    rules=[r_collectives, r_nocomm, r_tags, r_names, r_placement],
+    floors={"R09-COLLECTIVES": 8, "R09-NOCOMM": 7, "R09-TAGS": 5, "R09-NAMES": 6,
+            "R09-PLACEMENT": 4},
     explanation=(
         "Decides code-shape conditions without which the invariants cannot hold, "
         "not the invariants on concrete partitions. R09-COLLECTIVES "
